@@ -39,6 +39,7 @@ core_sizes[] = {
 	/* basic pointer types (0x8 - 0xf) */
 	pointer_type(MPT_ENUM(TypeNodePtr)),
 	pointer_type(MPT_ENUM(TypeReplyDataPtr)),
+	pointer_type(MPT_ENUM(TypeBufferPtr)),
 	
 	/* basic value types (0x18 - 0x1f) */
 	basic_type(MPT_ENUM(TypeValFmt),    MPT_STRUCT(value_format)),
@@ -159,6 +160,8 @@ static void _iovec_init(void) {
 		int pos = scalar_sizes[i].type - MPT_ENUM(_TypeScalarBase);
 		*((size_t *) &iovec_types[pos].size) = sizeof(struct iovec);
 	}
+	/* generic vector has no scalar counterpart */
+	*((size_t *) &iovec_types[MPT_ENUM(TypeVector) - MPT_ENUM(_TypeVectorBase)].size) = sizeof(struct iovec);
 	atexit(_iovec_fini);
 }
 /* dynamic basic type resources */
